@@ -497,6 +497,20 @@ def check_db(chk, db, tab, terms, jobs):
                 exp_key = (key[0] + 1, key[1]) if lv[0] == "ins" else key
                 ok_key = exp_key in eqk
                 hits = cigar_read_hits(smp, g, key, cwin, G)
+                if (not ok_key or hits != 1) and ok:
+                    # the database lists the SAME haplotype twice: another catalogued indel is a shifted spelling of this one (e.g. delC at
+                    # two positions of one C-run).  aldy's table of equivalent spellings then maps every spelling to ONE of the two entries;
+                    # which entry gets the reads is a property of the (inconsistent) database, not of the anchoring
+                    def same_hap(k2):
+                        lo_, hi_ = min(key[0], k2[0]) - 12, max(key[0], k2[0]) + 40
+                        win = g[lo_:hi_]
+                        return "N" not in win and apply_py(parse_op_py(k2[1]), k2[0], lo_, win) == apply_py(parse_op_py(key[1]), key[0], lo_, win)
+                    twins = [k2 for k2, *_ in indel_keys if k2 != key and abs(k2[0] - key[0]) < 200 and same_hap(k2)]
+                    if twins:
+                        chk.count(st + ":indel-anchoring", "skipped:database-lists-an-equivalent-indel-twice")
+                        jobs.append(("anchor-note", db, (p, op, key, va, eqk)))
+                        terms.append("OZ 0")
+                        continue
                 if not ok or not ok_key or hits != 1:
                     chk.fail("insertion-gap", dict(d, loaded=list(key)), case_data,
                              {"variant": [key[0] + 1 if lv[0] == "ins" else key[0], "anchor base + allele"], "eq_key": list(exp_key), "read_hits": 1},
